@@ -281,13 +281,28 @@ def run(F, chk):
         chk.violation("R14.3", "C14/R14.3:CloneChildren:strings", where(cc),
                       "CloneChildren does not re-register the clone's strings with the destination header")
     # recursion into the clone (not the source child)
-    rec = [n for n in body_nodes if n["k"] == "OpCall" and n.get("op") == "()" and n.get("args") and show(n["args"][0]) == "cloneBlock"]
-    ok = bool(rec) and all("src" not in show(n["args"][1]).lower() for n in rec if len(n["args"]) > 1)
+    # the local that holds the recursive lambda, and the locals that hold (a pointer into) a clone: `x = y->Clone()`, `p = x.get()`
+    lam_vars = {v["id"] for d in walk(cc["body"]) if d["k"] == "Decl" for v in d.get("vars", [])
+                if is_node(v.get("init")) and any(x["k"] == "Lambda" and x.get("fid") in {g["id"] for g in lambdas} for x in walk(v["init"]))}
+    clone_vars = set()
+    for _ in range(3):
+        for d in body_nodes:
+            if d["k"] == "Decl":
+                for v in d.get("vars", []):
+                    i0 = v.get("init")
+                    if is_node(i0) and (any(x["k"] == "Call" and x.get("short") == "Clone" for x in walk(i0)) or
+                                        any(x["k"] == "Ref" and x.get("id") in clone_vars for x in walk(i0))):
+                        clone_vars.add(v["id"])
+    rec = [n for n in body_nodes if n["k"] == "OpCall" and n.get("op") == "()" and n.get("args") and is_node(n["args"][0]) and
+           any(x["k"] == "Ref" and x.get("id") in lam_vars for x in walk(n["args"][0]))]
+    ok = bool(rec) and all(any(x["k"] == "Ref" and x.get("id") in clone_vars for x in walk(n["args"][1])) for n in rec if len(n["args"]) > 1)
     chk.instance(R3, ok=ok, sample={"recurses_into_clone": ok})
     if not ok:
         chk.violation("R14.3", "C14/R14.3:CloneChildren:recursion", where(cc), "CloneChildren must recurse into the cloned child")
     # the clone is taken from the *source* header lookup and added to *this* header
-    look = [n for n in body_nodes if n["k"] == "Call" and (n.get("short") or "").startswith("GetBlock") and "srcNif" in show(n.get("recv"))]
+    src_params = {p_["id"] for p_ in cc.get("params", []) if "NifFile" in (p_.get("ct") or p_.get("t") or "")}
+    look = [n for n in body_nodes if n["k"] == "Call" and (n.get("short") or "").startswith("GetBlock") and is_node(n.get("recv")) and
+            any(x["k"] == "Ref" and x.get("id") in src_params for x in walk(n["recv"]))]
     ok = bool(look)
     chk.instance(R3, ok=ok, sample={"children_looked_up_in_source": ok})
     if not ok:
